@@ -1753,6 +1753,10 @@ func (ctx Ctx) assignFromTo(s ast.Node,
 		if info.throughPointer {
 			structExpr = ctx.expr(lhs.X)
 		} else {
+			if x, isIdent := lhs.X.(*ast.Ident); isIdent && ok && !ctx.isPtrWrapped(x) {
+				// x is bound to a struct value, there is no cell to store into
+				ctx.unsupported(s, "variable %s is not assignable\n\t(declare it with 'var' to pointer-wrap in GooseLang and support re-assignment)", x.Name)
+			}
 			structExpr = ctx.refExpr(lhs.X)
 		}
 		if ok {
